@@ -185,14 +185,14 @@ func saveCompactionMetadata(writeFolder string, compactionMetadata *proto.Compac
 	if err != nil {
 		return err
 	}
+	defer func() {
+		err = errors.Join(err, metaWriter.Close())
+	}()
+
 	err = metaWriter.Open()
 	if err != nil {
 		return err
 	}
-
-	defer func() {
-		err = errors.Join(err, metaWriter.Close())
-	}()
 
 	_, err = metaWriter.Write(compactionMetadata)
 	if err != nil {
